@@ -30,14 +30,26 @@ def case_spec(seed, i):
     return name, gen.gen_spec(rnd, **kw)
 
 
-def full_obs(b):
+def conn_sets_obs(b):
     def f(dsg):
-        ob = O.instance(dsg, b, deep=True)
         try:
             cs = O.conn_sets(dsg, b)
-            ob['conn_sets'] = sorted((k, S.digest(v), len(v)) for k, v in cs.items())
+            return sorted((k, S.digest(v), len(v)) for k, v in cs.items())
         except Exception as e:  # noqa
-            ob['conn_sets'] = 'ERR:' + type(e).__name__
+            return 'ERR:' + type(e).__name__
+    return f
+
+
+def full_obs(b, order=None):
+    """`order` (a dict the driver flips between quiescent points): with order['conn_first'] the connection sets are
+    asked BEFORE anything else -- `feasible` refreshes node-level state that the connection-set query relies on, so a
+    fixed order of questions would hide a connection-set query that reads stale shared state."""
+    cso = conn_sets_obs(b)
+
+    def f(dsg):
+        first = cso(dsg) if order and order.get('conn_first') else None
+        ob = O.instance(dsg, b, deep=True)
+        ob['conn_sets'] = first if first is not None else cso(dsg)
         try:
             ob['taken_single'] = None  # class-level record: observed separately (see below)
         except Exception:  # noqa
@@ -66,8 +78,9 @@ def check_case(sp, col, shard, seed_parts, n_ops):
     if b.dsg is None:
         col.count('skipped_build_error')
         return
-    reg = M.Registry(full_obs(b), counter=col.count)
-    reg.pair_probe = ('feasible', lambda g: bool(g.feasible))
+    q_order = {'conn_first': False}
+    reg = M.Registry(full_obs(b, q_order), counter=col.count)
+    reg.pair_probe = [('feasible', lambda g: bool(g.feasible)), ('conn_sets', conn_sets_obs(b))]
     tap = M.MutationTap(b.name)
     reg.install()
     tap.install()
@@ -78,6 +91,7 @@ def check_case(sp, col, shard, seed_parts, n_ops):
 
     def after(op):
         ops.append(op)
+        q_order['conn_first'] = len(ops) % 2 == 1
         reg.settle()
         col.count('monitor_quiescent_points')
         for serial, birth, now in reg.reobserve():
